@@ -30,7 +30,7 @@ class LazyNS(Model):
         object.__setattr__(self, "_cache", {})
 
     def __getattr__(self, name):
-        if name.startswith("_"):
+        if name.startswith("__") or name.startswith("_cg_") or name.startswith("_uc_") or name.startswith("_ri_"):
             raise AttributeError(name)
         c = object.__getattribute__(self, "_cache")
         if name not in c:
@@ -89,7 +89,7 @@ def stdlib_table():
         _STDLIB = {
             "itertools": {n: getattr(itertools, n) for n in ("count", "repeat", "cycle", "starmap", "accumulate", "groupby", "islice", "product", "permutations", "combinations",
                                                              "combinations_with_replacement", "zip_longest", "takewhile", "dropwhile", "tee", "compress", "filterfalse")},
-            "functools": {"reduce": functools.reduce, "partial": functools.partial, "lru_cache": m_lru_cache, "cache": m_lru_cache, "wraps": (lambda f: (lambda g: g)), "cached_property": (lambda f: f),
+            "functools": {"reduce": functools.reduce, "partial": functools.partial, "lru_cache": m_lru_cache, "cache": m_lru_cache, "wraps": m_wraps, "cached_property": (lambda f: f),
                           "total_ordering": (lambda c: c), "singledispatch": m_singledispatch},
             "contextlib": {"contextmanager": m_contextmanager, "suppress": MSuppress, "nullcontext": (lambda x=None: MContextManager(iter([x]))), "ExitStack": MExitStack, "closing": (lambda x: MContextManager(iter([x])))},
             "textwrap": {"dedent": __import__("textwrap").dedent, "indent": __import__("textwrap").indent},
@@ -104,6 +104,9 @@ def stdlib_table():
                                                                     "ior", "iand", "ixor", "iadd", "isub", "imul", "concat", "iconcat", "floordiv", "mod", "truediv", "pow", "lshift", "rshift", "inv", "invert", "index",
                                                                     "countOf", "indexOf", "setitem", "delitem", "abs", "pos")},
             "queue": {"Queue": MQueue},
+            "inspect": {"signature": m_signature, "Parameter": __import__("inspect").Parameter, "Signature": __import__("inspect").Signature,
+                        "isgenerator": (lambda x: type(x).__name__ == "LazyGen"), "isclass": (lambda x: isinstance(x, type) or type(x).__name__ in ("UserClass", "EnumClass", "RepoClassRef")),
+                        "isfunction": (lambda x: hasattr(x, "_cg_fdef"))},
             "io": {"StringIO": MStringIO},
             "weakref": {"WeakKeyDictionary": dict, "WeakValueDictionary": dict, "WeakSet": set},
             "copy": {"copy": __import__("copy").copy, "deepcopy": __import__("copy").deepcopy},
@@ -121,6 +124,108 @@ def stdlib_table():
         _STDLIB["itertools"]["pairwise"] = itertools.pairwise
         _STDLIB["itertools"]["batched"] = _batched
     return _STDLIB
+
+
+def m_wraps(f):
+    """functools.wraps: the wrapper keeps its own behaviour and takes over the wrapped function's name / documentation; it
+    remembers it as `__wrapped__` (which `inspect.signature` follows)."""
+    def deco(g):
+        try:
+            g.__wrapped__ = f
+            for a in ("__name__", "__qualname__", "__doc__"):
+                if hasattr(f, a):
+                    setattr(g, a, getattr(f, a))
+            if hasattr(f, "_cg_fdef") and not hasattr(g, "__doc__"):
+                g.__doc__ = ast.get_docstring(f._cg_fdef)
+        except (AttributeError, TypeError):
+            pass
+        return g
+
+    return deco
+
+
+class MBoundArguments(Model):
+    _allow_private = True
+
+    def __init__(self, sig, real):
+        self.signature = sig
+        self._real = real
+        self.arguments = real.arguments
+
+    @property
+    def args(self):
+        return self._real.args
+
+    @property
+    def kwargs(self):
+        return self._real.kwargs
+
+    def apply_defaults(self):
+        self._real.apply_defaults()
+        self.arguments = self._real.arguments
+
+
+class MSignature(Model):
+    """inspect.Signature of a function evaluated from source (parameters read from its definition, default values evaluated in
+    its defining scope); binding follows CPython's own rules."""
+
+    _allow_private = True
+
+    def __init__(self, real):
+        self._real = real
+        self.parameters = dict(real.parameters)
+        self.return_annotation = real.return_annotation
+
+    def _bind(self, how, a, k):
+        try:
+            return MBoundArguments(self, getattr(self._real, how)(*a, **k))
+        except TypeError as e:
+            raise ModelRaise("TypeError", str(e))
+
+    def bind(self, *a, **k):
+        return self._bind("bind", a, k)
+
+    def bind_partial(self, *a, **k):
+        return self._bind("bind_partial", a, k)
+
+
+def m_signature(fn, **_kw):
+    import inspect as _inspect
+
+    seen = 0
+    while hasattr(fn, "__wrapped__") and seen < 20:
+        fn = fn.__wrapped__
+        seen += 1
+    skip_first = False
+    if not hasattr(fn, "_cg_fdef") and hasattr(fn, "clo") and hasattr(getattr(fn, "clo"), "_cg_fdef"):
+        fn, skip_first = fn.clo, True  # a bound method of an evaluated class
+    if not hasattr(fn, "_cg_fdef"):
+        raise Unsupported(f"inspect.signature of {type(fn).__name__}")
+    fdef, interp = fn._cg_fdef, getattr(fn, "_cg_interp", None)
+    a = fdef.args
+    P = _inspect.Parameter
+
+    def dv(d):
+        if d is None:
+            return P.empty
+        if interp is None:
+            raise Unsupported("default value of a function without a defining scope")
+        return interp.me.ev(d)
+
+    pos = a.posonlyargs + a.args
+    defaults = [None] * (len(pos) - len(a.defaults)) + list(a.defaults)
+    ps = []
+    for i, (x, d) in enumerate(zip(pos, defaults)):
+        ps.append(P(x.arg, P.POSITIONAL_ONLY if i < len(a.posonlyargs) else P.POSITIONAL_OR_KEYWORD, default=dv(d)))
+    if a.vararg is not None:
+        ps.append(P(a.vararg.arg, P.VAR_POSITIONAL))
+    for x, d in zip(a.kwonlyargs, a.kw_defaults):
+        ps.append(P(x.arg, P.KEYWORD_ONLY, default=dv(d)))
+    if a.kwarg is not None:
+        ps.append(P(a.kwarg.arg, P.VAR_KEYWORD))
+    if skip_first and ps:
+        ps = ps[1:]
+    return MSignature(_inspect.Signature(ps))
 
 
 def bind_stdlib_imports(tree, env):
@@ -565,9 +670,49 @@ def _dispatch_method(fdef, clo, obj, ctx=None):
     return dispatch
 
 
+_KNOWN_METHOD_DECORATORS = {"staticmethod", "classmethod", "property", "lru_cache", "cache", "cached_property", "wraps", "contextmanager", "singledispatchmethod", "register", "abstractmethod",
+                            "override", "final"}
+
+
+def _decorator_name(d):
+    return ast.unparse(d).split("(")[0].split(".")[-1]
+
+
+def apply_user_method_decorators(fdef, clo, env):
+    """Decorators of a method that the package defines itself (`@_node_lists def _drop(self, ns)`): applied once, to the plain
+    function, as the class body does. They must be the innermost ones - a library decorator below them is not modelled."""
+    names = [_decorator_name(d) for d in fdef.decorator_list]
+    user = [d for d, nm in zip(fdef.decorator_list, names) if nm not in _KNOWN_METHOD_DECORATORS]
+    if not user:
+        return clo
+    if any(nm not in _KNOWN_METHOD_DECORATORS for nm in names[: len(names) - len(user)]):
+        raise Unsupported(f"decorator order {names} on {fdef.name}")
+    from .minieval import MiniEval
+
+    ev = MiniEval(env).ev
+    for dec in reversed(user):
+        try:
+            d = ev(dec)
+        except Unsupported as e:
+            raise Unsupported(f"decorator {ast.unparse(dec)[:40]} on {fdef.name}: {e}")
+        if d is None or not callable(d):
+            raise Unsupported(f"decorator {ast.unparse(dec)[:40]} on {fdef.name}")
+        clo = d(clo)
+    if not callable(clo):
+        raise Unsupported(f"decorator(s) {names} on {fdef.name} do not give a function")
+    try:
+        clo._cg_user_decorated = True
+    except (AttributeError, TypeError):
+        raise Unsupported(f"decorator(s) {names} on {fdef.name} give an object the evaluator cannot mark")
+    return clo
+
+
 def bind_with_decorators(fdef, clo, obj, ctx=None):
-    decs = {ast.unparse(d).split(".")[-1].split("(")[0] for d in fdef.decorator_list}
-    unknown = decs - {"staticmethod", "classmethod", "property", "lru_cache", "cache", "cached_property", "wraps", "contextmanager", "singledispatchmethod", "register", "abstractmethod", "override", "final"}
+    decs = {_decorator_name(d) for d in fdef.decorator_list}
+    unknown = decs - _KNOWN_METHOD_DECORATORS
+    if unknown and getattr(clo, "_cg_user_decorated", False):
+        decs -= unknown
+        unknown = set()
     if unknown:
         raise Unsupported(f"decorator(s) {sorted(unknown)} on {fdef.name}")
     if "singledispatchmethod" in decs:
@@ -668,8 +813,10 @@ class RepoInstance(Model):
         if key not in pkg.repo.funcs:
             # a class-level assignment: `and_gate = partialmethod(_operator_gate, "and", 2)` (a method made from another one), or a
             # class attribute holding a constant / table
-            cdef = pkg.repo.classes.get((rel, cls))
-            for st in (cdef.body if cdef is not None else ()):
+            own_rel, own_cls = rel, cls
+            body = [(st, r_, c_) for (r_, c_) in pkg.repo.class_mro.get((own_rel, own_cls), [(own_rel, own_cls)]) if (r_, c_) in pkg.repo.classes
+                    for st in pkg.repo.classes[(r_, c_)].body]
+            for st, rel, cls in body:
                 tgt = st.targets[0] if isinstance(st, ast.Assign) and len(st.targets) == 1 else st.target if isinstance(st, ast.AnnAssign) and st.value is not None else None
                 if not (isinstance(tgt, ast.Name) and tgt.id == name):
                     continue
@@ -746,10 +893,14 @@ def repo_class_attr(pkg, rel, cls, name, clsref):
             from .minieval import MiniEval
 
             return MiniEval(pkg.env(rel)).ev(st.value)
-    for b in (cdef.bases if cdef is not None else ()):
-        bn = ast.unparse(b).split(".")[-1]
-        if (rel, bn) in pkg.repo.classes:
-            return repo_class_attr(pkg, rel, bn, name, clsref)
+    for (br, bn) in pkg.repo.class_mro.get((rel, cls), [])[1:]:
+        bdef = pkg.repo.classes.get((br, bn))
+        for st in (bdef.body if bdef is not None else ()):
+            tgt = st.targets[0] if isinstance(st, ast.Assign) and len(st.targets) == 1 else st.target if isinstance(st, ast.AnnAssign) and st.value is not None else None
+            if isinstance(tgt, ast.Name) and tgt.id == name:
+                from .minieval import MiniEval
+
+                return MiniEval(pkg.env(br)).ev(st.value)
     raise Unsupported(f"class {cls} has no class-level attribute {name} the evaluator can read")
 
 
@@ -830,10 +981,14 @@ class Package:
         default values belong to the function, not to the instance or the call (a mutable default is shared by all)."""
         key = (rel, qual)
         if key not in self._method_closures:
-            env = self.env(rel)
+            fi = self.repo.func(rel, qual)
+            if (fi.file, fi.qual) != key:  # inherited from a mixin of the package: one function object, whoever inherits it
+                self._method_closures[key] = self.method_closure(fi.file, fi.qual)
+                return self._method_closures[key]
+            env = self.env(fi.file)
             bi = BlockInterp(env, max_steps=self.max_steps)
             bi.me.env = env
-            self._method_closures[key] = bi.make_closure(self.repo.func(rel, qual).node)
+            self._method_closures[key] = apply_user_method_decorators(fi.node, bi.make_closure(fi.node), env)
         return self._method_closures[key]
 
     def class_level_attr(self, model_cls, name):
@@ -869,6 +1024,10 @@ class Package:
             return self.func("utils.py", name)
         if name in ("from_file", "from_lib", "to_file"):
             return self.func("io.py", name)
+        if f"{name}.py" in self.repo.tree:
+            return self.module_ns(f"{name}.py")
+        if f"{name}/__init__.py" in self.repo.tree:
+            return LazyNS(lambda sub, d=name: self.resolve_import("__init__.py", f"circuitgraph.{d}", sub, 0))
         return _MISSING
 
     def module_ns(self, rel):
@@ -968,31 +1127,73 @@ class Package:
         from .verilogmodel import MRe
 
         env.setdefault("re", MRe())
-        reexports = {"parse_verilog_netlist": "parsing/verilog.py", "fast_parse_verilog_netlist": "parsing/fast_verilog.py"}
-        modfile = {"circuitgraph.io": "io.py", "circuitgraph.utils": "utils.py", "circuitgraph.tx": "tx.py", "circuitgraph.sat": "sat.py", "circuitgraph.props": "props.py",
-                   "circuitgraph.logic": "logic.py", "circuitgraph.parsing.verilog": "parsing/verilog.py", "circuitgraph.parsing.fast_verilog": "parsing/fast_verilog.py",
-                   "circuitgraph.circuit": "circuit.py"}
-        for st in self.repo.tree[rel].body:
-            if not isinstance(st, ast.ImportFrom) or not st.module or not st.module.startswith("circuitgraph"):
-                continue
-            for al in st.names:
-                nm = al.asname or al.name
-                if nm in env:
-                    continue
-                target = modfile.get(st.module)
-                if st.module == "circuitgraph.parsing" and al.name in reexports:
-                    target = reexports[al.name]
-                if target is None:
-                    continue
-                if al.name == "parse_verilog_netlist":
-                    env[nm] = self._full_parser
-                elif (target, al.name) in self.repo.funcs or (target, al.name) in self.overrides:
-                    env[nm] = (lambda t, n: (lambda *a, **k: self.func(t, n)(*a, **k)))(target, al.name)
-                elif target != rel and target in self.repo.tree:
-                    # a helper class / enumeration / exception class / constant another module of the package defines
-                    tenv = self.env(target)
-                    if al.name in tenv:
-                        env[nm] = tenv[al.name]
+        env["__resolve_import__"] = lambda module, name, level, rel=rel: self.resolve_import(rel, module, name, level)
+        env["__resolve_module__"] = lambda dotted, rel=rel: self.resolve_module(dotted)
+
+        def walk(nodes):
+            for st in nodes:
+                if isinstance(st, ast.ImportFrom):
+                    if self.repo.module_rel(st.module, st.level, rel) is None:
+                        continue
+                    for al in st.names:
+                        nm = al.asname or al.name
+                        if nm in env:
+                            continue
+                        v = self.resolve_import(rel, st.module, al.name, st.level)
+                        if v is not _MISSING:
+                            env[nm] = v
+                elif isinstance(st, ast.Import):
+                    for al in st.names:
+                        if al.asname and al.asname not in env:
+                            v = self.resolve_module(al.name)
+                            if v is not _MISSING:
+                                env[al.asname] = v
+                elif isinstance(st, (ast.If, ast.Try)):
+                    walk(ast.iter_child_nodes(st))
+
+        walk(self.repo.tree[rel].body)
+
+    def resolve_module(self, dotted):
+        """`import circuitgraph.x.y as m`: the namespace of that module of the package."""
+        f = self.repo.module_rel(dotted)
+        if f is None:
+            return _MISSING
+        if f == "__init__.py":
+            return self.cg
+        return self.module_ns(f)
+
+    def resolve_import(self, rel, module, name, level=0, depth=0):
+        """The value `from <module> import <name>` binds in the module `rel` (a function evaluated from source, a class / constant
+        of the other module's environment, a sub-module's namespace); _MISSING when the evaluator cannot tell."""
+        target = self.repo.module_rel(module, level, rel)
+        if target is None or depth > 5:
+            return _MISSING
+        if target.endswith("__init__.py"):
+            d = target[: -len("__init__.py")]
+            for sub in (d + name + ".py", d + name + "/__init__.py"):
+                if sub in self.repo.tree:
+                    return self.cg if sub == "__init__.py" else self.module_ns(sub)
+            if target == "__init__.py":
+                return self._cg_attr(name)
+            # re-exported by the sub-package's __init__
+            for st in self.repo.tree[target].body:
+                if isinstance(st, ast.ImportFrom):
+                    for al in st.names:
+                        if (al.asname or al.name) == name:
+                            return self.resolve_import(target, st.module, al.name, st.level, depth + 1)
+            return _MISSING
+        if name == "parse_verilog_netlist" and target == "parsing/verilog.py":
+            return self._full_parser
+        if (target, name) in self.repo.funcs or (target, name) in self.overrides:
+            return (lambda t, n: (lambda *a, **k: self.func(t, n)(*a, **k)))(target, name)
+        if target == "circuit.py" and name in ("Circuit", "BlackBox"):
+            return self._cg_attr(name)
+        if target != rel and target in self.repo.tree:
+            # a helper class / enumeration / exception class / constant another module of the package defines
+            tenv = self.env(target)
+            if name in tenv:
+                return tenv[name]
+        return _MISSING
 
     def _full_parser(self, netlist, blackboxes, warnings=False, error_on_warning=False):
         from .verilogmodel import ParseError, full_parse
